@@ -179,7 +179,11 @@ def main(tier):
             evs_, tail = s
             shape = [(e[0], e[1]) if len(e) > 2 else (e[0],) for e in evs_]
             fe_ = m.tb.fn("::parser::Parser::get_enclosed_elements_with_impl_mult")
-            ok_e = shape == [("next",), ("ast", "param:%s" % m._param_name(fe_, 1)), ("check", "param:%s" % m._param_name(fe_, 2))] and all(e[-1] == "tried" for e in evs_) \
+            if m.tb._cache.get("encl_fixed_cat"):      # no level parameter: the level is a constant of the helper (the bracket rows above check which)
+                want = [("next",), ("ast", shape[1][1] if len(shape) > 1 and not shape[1][1].startswith(("param:", "?")) else None), ("check", "param:%s" % m._param_name(fe_, 1))]
+            else:
+                want = [("next",), ("ast", "param:%s" % m._param_name(fe_, 1)), ("check", "param:%s" % m._param_name(fe_, 2))]
+            ok_e = shape == want and all(e[-1] == "tried" for e in evs_) \
                 and tail[0] == "tailcall" and tail[1][0] == "impl" and M("(icall (param ?g) (R1))", tail[1][1]) is not None
             run.ob(ok_e, "enclosed|%s" % ev, "C04-6 bracket helper: consume opener, parse inner at the given level, require the given closer, wrap",
                    where(m, "::parser::Parser::get_enclosed_elements_with_impl_mult"), "effects %s then %s" % (shape, show_tail(tail)[:120]))
